@@ -5,7 +5,7 @@ claimed = {
  "C01": ("kctl", "pairwise may-share oracle on the allocator's recorded holdings after every handler call and on Service statuses at every quiescence, over seeded histories/schedules/faults of the real controller"),
  "C02": ("kctl", "pool-membership / admission / family / request / pool-order oracle (own address parser) at every assignment event and at quiescence"),
  "C03": ("kctl", "frame condition on every handler call (other services keep still-admissible addresses), write-time stability of the processed service's recorded addresses, and zero writes on a second forced re-sync"),
- "C06": ("kctl", "seeded crash/restart and status-write-fault injection (before/after every write, between events) with steal-at-write, recorded-address-kept, memory=status and bounded-quiescence oracles"),
+ "C06": ("kctl", "crash-point enumeration (for each sampled fault-free history, one run per crash opportunity it passes: every scheduler step boundary, before and after every status write) plus seeded multi-crash and status-write-fault sequences, with steal-at-write, recorded-address-kept, memory=status and bounded-quiescence oracles"),
  "C07": ("kctl", "brute-force admissibility oracle for every pending Service at every quiescence"),
  "C11": ("kctl", "counter oracle (own usable/usage count, saturating) and bookkeeping == fresh rebuild after every handler call"),
  "C04": ("kspk", "at every quiescence of a simulated cluster of real speakers: per address exactly one announcer iff an eligible node exists, announcer eligible, sharers agree (eligibility from raw API objects, election not mirrored)"),
@@ -35,7 +35,7 @@ for pid,(eng,txt) in sorted(claimed.items()):
       "evidence_file": f"/verif/evidence/{pid}.json",
       "replay_cmd_template": "bin/verifcheck -replay {path}",
       "engine": eng,
-      "level_claimed": {"category": "exploration", "text": txt + "; a clean batch is evidence, not proof", "design_ref": "DESIGN.md §4 "+pid},
+      "level_claimed": {"category": ("fault_enumeration" if pid=="C06" else "exploration"), "text": txt + "; a clean batch is evidence, not proof", "design_ref": "DESIGN.md §4 "+pid},
       "level_note": "trusted: the simulated API server/informer/work-queue semantics (sim/simk8s), the oracle packages (sim/spec*), the simbuild rewrite (checked by running the repository's own unit tests against the rewritten sources); real: every MetalLB package on the path",
       "technique": "deterministic simulation with fault injection: seeded schedule/fault search over the real controller code, invariants checked during each run, minimised replay file per violation",
     })
